@@ -159,6 +159,29 @@ def _iter_rel_edit_reading_abs(s):
             _mid_check(s, f"after editing note-on #{k} while iterating the relative view")
 
 
+def _obtain_abs_then_transpose(s):
+    it = s.messages_abs()          # the iterator is obtained but not advanced before another operation runs
+    s.transpose(2)
+    for _ in it:
+        pass
+
+
+def _obtain_rel_then_cutoff(s):
+    it = s.messages_rel()
+    s.cutoff(12, 6)
+    for _ in it:
+        pass
+
+
+def _obtain_abs_transpose_read_edit(s):
+    it = s.messages_abs()
+    s.transpose(2)
+    s.abs                          # noqa: B018  (a read between obtaining and consuming the iterator)
+    for m in it:
+        if m.message_type is MT.NOTE_ON:
+            m.velocity = 93
+
+
 def _split_edit_pieces(s):
     pieces = s.split([10])
     for k, pc in enumerate(pieces):
@@ -261,6 +284,12 @@ OPS = {
     "is_empty": (lambda s: s.is_empty(), _ident, None),
     "channel_consistent": (lambda s: s.is_channel_consistent(), _ident, None),
     "to_midi_track": (lambda s: s.to_midi_track(), _ident, None),
+    # round 7: an iterator obtained before and consumed after another operation; the receiver as its own meta sequence
+    "obtain_abs_then_transpose": (_obtain_abs_then_transpose, None, "rel"),
+    "obtain_rel_then_cutoff": (_obtain_rel_then_cutoff, None, "abs"),
+    "obtain_abs_transpose_read_edit": (_obtain_abs_transpose_read_edit, None, "abs"),
+    "scale_half_meta_self": (lambda s: s.scale(0.5, meta_sequence=s, quantise_afterwards=False), None, "rel"),
+    "scale_half_meta_self_q": (lambda s: s.scale(0.5, meta_sequence=s), None, "rel"),
 }
 OPNAMES = list(OPS)
 
